@@ -54,7 +54,7 @@ def scalar(ex, st, v):
 
 
 # ------------------------------------------------------------------ operator trait impls on primitives
-_arith_re = re.compile(r"^<(&?)(%s) as (Add|Sub|Mul|Div|Rem|BitAnd|BitOr|BitXor|Shl|Shr)(?:<(&?)(%s)>)?>::\w+$" % (NUM, NUM))
+_arith_re = re.compile(r"^<(&?)(%s) as (?:std::ops::|core::ops::)?(Add|Sub|Mul|Div|Rem|BitAnd|BitOr|BitXor|Shl|Shr)(?:<(&?)(%s)>)?>::\w+$" % (NUM, NUM))
 
 
 def m_arith(ex, st, callee, args):
@@ -98,7 +98,7 @@ def arith(ex, op, a, b):
     raise Inconclusive("arith op " + op)
 
 
-_neg_re = re.compile(r"^<(&?)(%s) as (Neg|Not)>::\w+$" % NUM)
+_neg_re = re.compile(r"^<(&?)(%s) as (?:std::ops::|core::ops::)?(Neg|Not)>::\w+$" % NUM)
 
 
 def m_neg(ex, st, callee, args):
@@ -526,8 +526,35 @@ def m_str_eq(ex, st, callee, args):
     return [(None, boolv(r))]
 
 
+# ------------------------------------------------------------------ Cow
+def m_cow_as_ref(ex, st, callee, args):
+    r = args[0]
+    if not isinstance(r, Ref):
+        raise Inconclusive("Cow::as_ref on %r" % (r,))
+    c = ex.read(st, r.cell, r.path)
+    while isinstance(c, Ref):
+        r = c
+        c = ex.read(st, r.cell, r.path)
+    if isinstance(c, Adt) and c.ty == "Cow":
+        if c.variant == "Borrowed":
+            return [(None, c.fields[0])]
+        return [(None, Ref(r.cell, r.path + (0,)))]
+    raise Inconclusive("Cow::as_ref on %r" % (c,))
+
+
+def m_cow_into_owned(ex, st, callee, args):
+    c = ex.deref(st, args[0]) if isinstance(args[0], Ref) else args[0]
+    if isinstance(c, Adt) and c.ty == "Cow":
+        if c.variant == "Borrowed":
+            return [(None, ex.deref(st, c.fields[0]))]   # clone of an immutable value tree
+        return [(None, c.fields[0])]
+    raise Inconclusive("Cow::into_owned on %r" % (c,))
+
+
 def base_models():
     m = Models()
+    m.add(r"^<Cow<.*> as (AsRef<.*>|Deref|Borrow<.*>)>::(as_ref|deref|borrow)$", m_cow_as_ref)
+    m.add(r"^Cow::<.*>::into_owned$", m_cow_into_owned)
     m.add(r"^Vec::<.*>::pop$", m_vec_pop)
     m.add(r"^Vec::<.*>::push$", m_vec_push)
     m.add(r"^Vec::<.*>::clear$", m_vec_clear)
